@@ -75,6 +75,14 @@ static void RAPass_reset_virt_reg_data(BaseRAPass* self) noexcept {
   }
 }
 
+static void RAPass_reset_node_pass_data(BaseRAPass* self) noexcept {
+  // Nodes (labels and instructions) reference RABlock / RAInst data allocated by the pass arena - these links must
+  // not survive the pass (instruction nodes are only unlinked by a successful rewrite, label nodes never).
+  for (BaseNode* node = self->func(); node && node != self->stop(); node = node->next()) {
+    node->reset_pass_data();
+  }
+}
+
 // BaseRAPass - Run Prepare & Cleanup
 // ==================================
 
@@ -224,6 +232,7 @@ Error BaseRAPass::run_on_function(Arena& arena, FuncNode* func, [[maybe_unused]]
 
   // Reset possible connections introduced by the register allocator.
   RAPass_reset_virt_reg_data(this);
+  RAPass_reset_node_pass_data(this);
 
   // Reset all core structures and everything that depends on the passed `Arena`.
   RAPass_cleanup_after_function(this);
